@@ -57,23 +57,39 @@ Proof. split; vm_compute; reflexivity. Qed.
    Comment attachment and clean-up (Model/Comments.v, Spec/CommentSpec.v; proofs in Proofs/Comments*.v)
    ================================================================================================================ *)
 From Coq Require Import ZArith.
-From LH Require Import Base.Res Model.Lexer Model.Ast Model.LuaFront Model.Comments Spec.CommentSpec
-  Proofs.CommentsCleanup Proofs.CommentsGap Proofs.CommentsAttach.
+From LH Require Import Base.Res Model.Lexer Model.Ast Model.Parser Model.LuaFront Model.Comments Model.Hover Spec.CommentSpec
+  Proofs.CommentsCleanup Proofs.CommentsGap Proofs.CommentsAttach Proofs.CommentsTable Proofs.CommentsFile Proofs.ParserLocBase Proofs.CommentsDecl.
 
-(* Full statement of the attachment sentence, from file BYTES, for EVERY file: the comment the server attaches to line L
+(* The attachment sentence on the comment map of a file, for EVERY file: the comment the server attaches to line L
    (GetLineComment on the map the lexer filled while the parser consumed the file) is the trailing comment recorded for L
-   if its text is non-empty, else the block ending on line L-1, lines joined by "\n", bytes unchanged.
-   It is REFUTED as stated (C13_leading_empty_refuted); proved below are
-   (1) C13_gap_entries: what one gap records (all structured gaps of white space, LF/CRLF breaks, `--text` comments),
-   (2) C13_comment_attach / _partial: the lookup, under the boolean guard attach_guard (no key shared by two entries,
-       no block of >= 2 lines starting with an empty line), (3) the clean-up characterisations.
-   Missing for a proof of the full sentence on a guarded class of BYTES: gaps with `--[[ ]]` comments, lone CR / LFCR
-   breaks or `--[x` comments (outside gap_ok), and a proof that entries of DIFFERENT gaps of one file never share a
-   key (today part of attach_guard, which is evaluated on the file's own map). *)
+   if its text is non-empty, else the block recorded as ending on line L-1, lines joined by "\n", bytes unchanged -
+   provided no two map writes share a key. (Before fix 699f51d this was refuted: a block starting with an
+   empty `--` line lost that line; see C13_leading_empty_regression.)
+   Proved below: (1) C13_gap_entries: what one gap records (all structured gaps of white space, LF/CRLF breaks, `--text`
+   comments); (2) C13_comment_attach / _partial: the lookup under the boolean guard attach_guard (positive keys, no key
+   shared by two entries); (3) the clean-up characterisations; (4) C13_comment_attach_file: the sentence from the file
+   BYTES against the declarative table of comment lines, with the guard discharged for the whole class of files whose
+   gaps are structured. *)
 Definition C13_comment_attach_full : Prop :=
   forall (gbk_runes : list N -> Z) (classify : list N -> numcls) bs es,
     comment_writes gbk_runes classify bs = Ok (Some es) ->
     forall L, doc_comment gbk_runes classify bs L = Ok (Some (spec_attach es L)).
+
+(* C13_comment_attach_full reads the map ENTRY BY ENTRY (spec_attach takes the first entry of a key); it is false
+   without the guard because a Go map keeps the LAST write of a key and two gaps - or a long-bracket and a `--` comment of
+   one gap - can write the same key: "--[[ a ]] -- b\nlocal y" writes key 1 twice (an empty long-comment entry, then the
+   line " b"); the server shows " b" for line 2, the first entry is empty. Not a defect of the code: the entry-wise
+   reading needs distinct keys (attach_guard), and C13_comment_attach_file proves they are distinct for structured files
+   and states the sentence on the table of comment LINES instead. *)
+Theorem C13_comment_attach_full_needs_guard : ~ C13_comment_attach_full.
+Proof.
+  intros H.
+  set (bs := [45;45;91;91;32;97;32;93;93;32;45;45;32;98;10;108;111;99;97;108;32;121]).
+  assert (Hw : comment_writes (fun _ => 0%Z) classify_tok bs
+               = Ok (Some [(1%Z, mkCinfo [] false true); (1%Z, mkCinfo [mkCline [32; 98] 1 3] true true)])) by (vm_compute; reflexivity).
+  specialize (H (fun _ => 0%Z) classify_tok _ _ Hw 2%Z). vm_compute in H. discriminate H.
+Qed.
+Print Assumptions C13_comment_attach_full_needs_guard.
 
 (* (1) one gap: for ALL structured gaps (indentation, optional `--text`, LF / CRLF line breaks) followed by any token
    start, skipWhiteSpaces records exactly the described entries: a trailing entry for a comment on the line the previous
@@ -85,7 +101,7 @@ Theorem C13_gap_entries : forall p2 p1 s g tail,
 Proof. exact skip_ws_gap. Qed.
 Print Assumptions C13_gap_entries.
 
-(* (2) the lookup: for ALL comment maps without key collisions and without a block that starts with an empty line,
+(* (2) the lookup: for ALL comment maps without key collisions,
    GetLineComment = the trailing comment stored for the line if its text is non-empty, else the block ending on the
    line above, lines joined by "\n", bytes unchanged. *)
 Theorem C13_comment_attach : forall es, attach_guard es = true ->
@@ -119,18 +135,147 @@ Example C13_attach_guard_inhabited :
              spec_attach es 3 = [32; 116] /\ spec_attach es 7 = [] /\ length es = 3%nat.
 Proof. eexists. split; [vm_compute; reflexivity|]. split; [vm_compute; reflexivity|]. split; [|split]; vm_compute; reflexivity. Qed.
 
-(* refutation of the full statement on the faithful model: a block whose first line is an empty `--` loses that line
-   ("--\n-- text\nlocal a = 1": the server shows " text", the block is "\n text") *)
+(* regression for the repaired defect C13-leading-empty-comment-line: a block whose first line is an empty `--` keeps
+   that line ("--\n-- text\nlocal a = 1": the documentation of line 3 is "\n text"; before the fix it was " text") *)
 Definition C13_prog_empty_first : list N :=
   [45;45;10; 45;45;32;116;101;120;116;10; 108;111;99;97;108;32;97;32;61;32;49].
-Theorem C13_leading_empty_refuted : ~ C13_comment_attach_full.
-Proof.
-  intros H.
-  assert (Hw : comment_writes (fun _ => 0%Z) classify_tok C13_prog_empty_first
-               = Ok (Some [(2%Z, mkCinfo [mkCline [] 1 2; mkCline [32;116;101;120;116] 2 2] true true)])) by (vm_compute; reflexivity).
-  specialize (H (fun _ => 0%Z) classify_tok _ _ Hw 3%Z). vm_compute in H. discriminate H.
-Qed.
-Print Assumptions C13_leading_empty_refuted.
+Example C13_leading_empty_regression :
+  comment_writes (fun _ => 0%Z) classify_tok C13_prog_empty_first
+    = Ok (Some [(2%Z, mkCinfo [mkCline [] 1 2; mkCline [32;116;101;120;116] 2 2] true true)]) /\
+  doc_comment (fun _ => 0%Z) classify_tok C13_prog_empty_first 3 = Ok (Some [10; 32;116;101;120;116]).
+Proof. split; vm_compute; reflexivity. Qed.
+
+(* (4) whole files, from the BYTES. The file is read as gap token gap ... token gap (Spec/CommentSpec.v file_gaps: gaps
+   cut out by a structural parser, token extents and line counts from scan_token of the shared lexer model); its comment
+   lines form a table (line, trailing?, text). For EVERY file of the boolean class file_class (every gap consists of
+   white space, LF / CRLF line breaks and `--text` comments whose text does not start with `[`; the parser reads the file
+   to its end) and EVERY line L that is not itself a comment-only line:
+     the documentation the server attaches to L = the trailing comment on L if its text is non-empty, else the maximal
+     block of comment-only lines ending on L-1, joined by "\n", bytes unchanged.
+   Nothing is assumed about the comment map: that entries of different gaps never share a key and that keys are positive
+   (attach_guard) is proved from the layout (C13_file_attach_guard). The side condition on L holds for every line a
+   token ends on - in particular the line of a declared name (C13_token_lines_no_comment). *)
+(* the statement without the class guard. NOT claimed: outside file_class the table is not defined (file_table = [] when
+   some gap is unstructured), so as written it fails there; what is missing for a full statement is a description
+   (table) for gaps with long-bracket comments, `--[x` comments, lone CR / LF CR breaks, and for files the parser does
+   not read to the end (there the map only holds the gaps in front of the tokens the parser pulled) *)
+Definition C13_comment_attach_file_full : Prop :=
+  forall (gbk_runes : list N -> Z) (classify : list N -> numcls) bs,
+    forall L, pure_at (file_table gbk_runes bs) L = None ->
+      doc_comment gbk_runes classify bs L = Ok (Some (spec_comment (file_table gbk_runes bs) L)).
+
+Theorem C13_comment_attach_file :
+  forall (gbk_runes : list N -> Z) (classify : list N -> numcls) bs,
+    file_class gbk_runes classify bs = true ->
+    forall L, pure_at (file_table gbk_runes bs) L = None ->
+      doc_comment gbk_runes classify bs L = Ok (Some (spec_comment (file_table gbk_runes bs) L)).
+Proof. exact comment_attach_file. Qed.
+Print Assumptions C13_comment_attach_file.
+
+Theorem C13_file_attach_guard :
+  forall (gbk_runes : list N -> Z) (classify : list N -> numcls) bs,
+    file_class gbk_runes classify bs = true ->
+    exists es, comment_writes gbk_runes classify bs = Ok (Some es) /\ attach_guard es = true.
+Proof. exact file_attach_guard. Qed.
+Print Assumptions C13_file_attach_guard.
+
+Theorem C13_token_lines_no_comment :
+  forall (gbk_runes : list N -> Z) (classify : list N -> numcls) bs ts,
+    file_class gbk_runes classify bs = true -> lex_all gbk_runes bs = Ok ts ->
+    forall t, In t ts -> tk (lt t) <> TkEOF -> pure_at (file_table gbk_runes bs) (tline (lt t)) = None.
+Proof. exact token_lines_no_comment. Qed.
+Print Assumptions C13_token_lines_no_comment.
+
+(* the same for every file WITHOUT SYNTAX ERROR whose gaps are structured (such a file is read to its end; lexical
+   errors do not matter): no reference to the parser's consumption *)
+Corollary C13_comment_attach_valid_file :
+  forall (gbk_runes : list N -> Z) (classify : list N -> numcls) bs b le rs,
+    parse_bytes gbk_runes classify bs = Ok (PR b le []) -> file_gaps gbk_runes bs = Some rs ->
+    forall L, pure_at (table_of_gaps rs) L = None ->
+      doc_comment gbk_runes classify bs L = Ok (Some (spec_comment (table_of_gaps rs) L)).
+Proof. exact comment_attach_valid_file. Qed.
+Print Assumptions C13_comment_attach_valid_file.
+
+(* end to end: the documentation text of a hover (ConvertStrToUtf8 (GetStrComment (GetLineComment file line))) = the
+   spec comment of the line, cleaned up line by line (C13_hover_cleanup_lines says how), handed to the encoding
+   heuristic; and unchanged by it when it is UTF-8 without a two-byte character, for ANY GBK decoder *)
+Theorem C13_hover_doc_file :
+  forall (gbk_runes : list N -> Z) (classify : list N -> numcls) (gbk_decode : list N -> option (list N)) bs es,
+    file_class gbk_runes classify bs = true -> comment_writes gbk_runes classify bs = Ok (Some es) ->
+    forall L, pure_at (file_table gbk_runes bs) L = None ->
+      hover_doc gbk_decode es L = convert gbk_decode (get_str_comment (spec_comment (file_table gbk_runes bs) L)) /\
+      forall cps, get_str_comment (spec_comment (file_table gbk_runes bs) L) = utf8_of cps ->
+        forallb scalar cps = true -> existsb is_two_byte cps = false ->
+        hover_doc gbk_decode es L = get_str_comment (spec_comment (file_table gbk_runes bs) L).
+Proof. exact hover_doc_file. Qed.
+Print Assumptions C13_hover_doc_file.
+
+(* the sentence for DECLARATIONS (DESIGN: "forall bs decl, class_ok bs -> doc_comment bs decl = spec_comment bs decl"):
+   in every file without syntax error whose gaps are structured, for EVERY name-bearing node of the AST (name_locs of
+   C04: the names of `local`, `local function`, `for`, parameters, and every name expression - hence every declared
+   local, global and function name), the documentation attached to the line the node's Loc ends on is the spec comment
+   of that line. No side condition on the line is left: a name is a token (C04_name_is_token), and a line a token ends
+   on is not a comment-only line. *)
+Theorem C13_comment_attach_decl :
+  forall (gbk_runes : list N -> Z) (classify : list N -> numcls) bs b le rs,
+    parse_bytes gbk_runes classify bs = Ok (PR b le []) -> file_gaps gbk_runes bs = Some rs ->
+    Forall (fun x => doc_comment gbk_runes classify bs (el (snd x))
+                     = Ok (Some (spec_comment (table_of_gaps rs) (el (snd x))))) (name_locs b).
+Proof. exact comment_attach_decl. Qed.
+Print Assumptions C13_comment_attach_decl.
+
+(* the hover model (Model/Hover.v, tied to the real server by leg c13.hover) end to end, for EVERY file whose gaps are
+   structured, every position and every GBK decoder: the hover text is the one computed with the spec comment of the
+   declaration's line as documentation - cleaned up by GetStrComment, then handed to ConvertStrToUtf8 (identity on UTF-8
+   without two-byte characters: C13_hover_doc_file / C13_utf8_identity). `inherit = true` is the server (for a
+   declaration initialised from another name the first non-empty comment along the initialiser chain is shown: class
+   inherited_doc when the declaration has no comment of its own), `inherit = false` the property's demand (the
+   declaration's own comment only); the documentation of EVERY declaration on the chain is its spec comment. *)
+Theorem C13_hover_file :
+  forall (gbk_runes : list N -> Z) (classify : list N -> numcls) (gbk_decode : list N -> option (list N)) bs rs,
+    file_gaps gbk_runes bs = Some rs ->
+    forall inherit file line col,
+      hover_with gbk_runes classify inherit (hover_doc gbk_decode) file bs line col
+      = hover_with gbk_runes classify inherit
+          (fun _ ln => convert gbk_decode (get_str_comment (spec_comment (table_of_gaps rs) ln))) file bs line col.
+Proof. exact hover_file. Qed.
+Print Assumptions C13_hover_file.
+
+(* the layout step on its own: the lexer's map writes are the entries of the file's gaps, for every file whose gaps are
+   structured (no condition on the parser) *)
+Theorem C13_file_layout :
+  forall (gbk_runes : list N -> Z) bs rs, file_gaps gbk_runes bs = Some rs ->
+    exists ts, lex_all gbk_runes bs = Ok ts /\ cm_writes ts = flat_map gap_entries rs /\ chain_ok 0 rs
+               /\ 0%Z :: tok_lines ts = map gr_p rs.
+Proof. exact file_layout. Qed.
+Print Assumptions C13_file_layout.
+
+(* non-vacuity of file_class: C13_prog above, and a file with a shebang line, a CRLF break, a two-line long string, a
+   trailing comment behind it, a block starting with an empty `--`, an illegal token that swallows its line break, and a
+   trailing comment at the end of the file without a final line break:
+   "#!/bin/lua\n-- h\r\nlocal s = [[a\nb]] -- tr\n--\n--x\n$\n-- after illegal\ny = 1 -- last" *)
+Definition C13_prog2 : list N :=
+  [35;33;47;98;105;110;47;108;117;97;10; 45;45;32;104;13;10;
+   108;111;99;97;108;32;115;32;61;32;91;91;97;10;98;93;93;32;45;45;32;116;114;10;
+   45;45;10; 45;45;120;10; 36;10;
+   45;45;32;97;102;116;101;114;32;105;108;108;101;103;97;108;10;
+   121;32;61;32;49;32;45;45;32;108;97;115;116].
+Example C13_file_class_inhabited :
+  file_class (fun _ => 0%Z) classify_tok C13_prog = true /\
+  file_class (fun _ => 0%Z) classify_tok C13_prog2 = true /\
+  length (file_table (fun _ => 0%Z) C13_prog2) = 6%nat /\
+  spec_comment (file_table (fun _ => 0%Z) C13_prog2) 3 = [32; 104] /\               (* block above `local s` *)
+  spec_comment (file_table (fun _ => 0%Z) C13_prog2) 4 = [32; 116; 114] /\          (* trailing, line the string ends on *)
+  spec_comment (file_table (fun _ => 0%Z) C13_prog2) 7 = [10; 120] /\               (* "" and "x" above `$` *)
+  spec_comment (file_table (fun _ => 0%Z) C13_prog2) 9 = [32; 108; 97; 115; 116] /\ (* trailing wins over the block *)
+  doc_comment (fun _ => 0%Z) classify_tok C13_prog2 9 = Ok (Some [32; 108; 97; 115; 116]).
+Proof. repeat split; vm_compute; reflexivity. Qed.
+
+(* outside the class: a long-bracket comment in a gap; a stray `end` that stops the parser *)
+Example C13_file_class_excludes :
+  file_class (fun _ => 0%Z) classify_tok [120;32;61;32;49;32;45;45;91;91;32;97;32;93;93;10] = false /\       (* x = 1 --[[ a ]] *)
+  file_class (fun _ => 0%Z) classify_tok [101;110;100;32;45;45;32;99;10;120;32;61;32;49] = false.            (* end -- c\nx = 1 *)
+Proof. split; vm_compute; reflexivity. Qed.
 
 (* (3) clean-up: what the two clean-up functions remove in front of a line, and nothing else *)
 Theorem C13_cleanup : forall l,
